@@ -9,6 +9,7 @@ import (
 
 	ipfslog "berty.tech/go-ipfs-log"
 	orbitdb "berty.tech/go-orbit-db"
+	"berty.tech/go-orbit-db/accesscontroller"
 	"berty.tech/go-orbit-db/iface"
 	"berty.tech/go-orbit-db/stores/operation"
 	"verifmc/explore"
@@ -19,7 +20,7 @@ import (
 func pointDetail(name string, obj interface{}) string {
 	switch o := obj.(type) {
 	case nil:
-		return ""
+		return sim.GoroutineTag() // lock points: the scenario's name for the calling goroutine
 	case operation.Operation:
 		return string(o.GetValue())
 	case ipfslog.Entry:
@@ -40,6 +41,10 @@ func pointDetail(name string, obj interface{}) string {
 // ConcWriters: N goroutines write concurrently to one event log store; the explorer steps each writer
 // through the points begin / afterAppend / afterPersist / afterIndex.
 type ConcWriters struct {
+	last    string // thread that made the last step
+	merge   int    // > 0: one more thread merges this many entries of a remote writer while the writers write
+	remote  *sim.Instance
+	locks   bool   // also park writers before every Lock/RLock of the store and index code (vsync shim)
 	kind    string // eventlog | keyvalue-distinct | keyvalue-same | docstore-same
 	net    *sim.Net
 	peer   *sim.Peer
@@ -95,25 +100,98 @@ func (w *ConcWriters) write(k, j int, payload string) (string, error) {
 func NewConcWriters(n, per int) (*ConcWriters, error) { return NewConcWritersKind("eventlog", n, per) }
 
 func NewConcWritersKind(kind string, n, per int) (*ConcWriters, error) {
-	w := &ConcWriters{kind: kind, net: sim.NewNet(), n: n, per: per, acked: map[string]string{}, errs: map[string]error{}}
+	return NewConcWritersLocks(kind, n, per, false)
+}
+
+// NewConcWritersLocks: with locks, every Lock/RLock taken by the store and index code (built with the vsync
+// shim) is a schedule point as well.
+func NewConcWritersLocks(kind string, n, per int, locks bool) (*ConcWriters, error) {
+	return NewConcWritersMerge(kind, n, per, locks, 0)
+}
+
+// NewConcWritersMerge: with merge > 0 another thread hands the store the head of a remote writer's chain of
+// that many entries (Sync), so that a replication merge runs concurrently with the local writes.
+func NewConcWritersMerge(kind string, n, per int, locks bool, merge int) (*ConcWriters, error) {
+	w := &ConcWriters{merge: merge, locks: locks, kind: kind, net: sim.NewNet(), n: n, per: per, acked: map[string]string{}, errs: map[string]error{}}
 	w.peer = w.net.AddPeer("W")
 	inst, err := w.peer.Start(nil)
 	if err != nil {
 		return nil, err
 	}
 	w.inst = inst
-	s, err := inst.DB.Create(bg, "db", w.storeType(), &orbitdb.CreateDBOptions{Replicate: boolp(false)})
+	copts := &orbitdb.CreateDBOptions{Replicate: boolp(false)}
+	if merge > 0 {
+		if w.remote, err = w.net.AddPeer("R").Start(nil); err != nil {
+			return nil, err
+		}
+		ac := accesscontroller.NewEmptyManifestParams()
+		ac.SetAccess("write", []string{inst.DB.Identity().ID, w.remote.DB.Identity().ID})
+		copts.AccessController = ac
+	}
+	s, err := inst.DB.Create(bg, "db", w.storeType(), copts)
 	if err != nil {
 		return nil, err
 	}
 	w.store, w.addr = s, s.Address().String()
+	var remoteHeads []ipfslog.Entry
+	if merge > 0 {
+		rs, err := w.remote.DB.Open(bg, w.addr, &orbitdb.CreateDBOptions{Replicate: boolp(false)})
+		if err != nil {
+			return nil, err
+		}
+		w.store = rs
+		for j := 0; j < merge; j++ {
+			payload := fmt.Sprintf("r.%d", j)
+			h, err := w.write(9, j, payload)
+			if err != nil {
+				w.store = s
+				return nil, err
+			}
+			w.acked[payload] = h // must be visible once the merge has completed
+		}
+		w.store = s
+		if remoteHeads, err = WireCopy(w.addr, rs.OpLog().Heads().Slice()); err != nil {
+			return nil, err
+		}
+		if err := sim.Quiesce(); err != nil {
+			return nil, err
+		}
+	}
 	sim.UsePointGates(w.net.Gates, pointDetail)
 	w.net.Gates.Enable(func(kind, peer, key, caller string) bool {
-		return kind == "point" && (strings.HasPrefix(peer, "write.") || strings.HasPrefix(peer, "index."))
+		if kind != "point" {
+			return false
+		}
+		if strings.HasPrefix(peer, "write.") || strings.HasPrefix(peer, "index.") {
+			return true
+		}
+		// lock points: the write path of the store and the index implementations
+		return locks && (peer == "lock" || peer == "rlock") &&
+			(strings.Contains(caller, "Index") || strings.HasPrefix(caller, "basestore.(*BaseStore).AddOperation") || strings.HasPrefix(caller, "basestore.(*BaseStore).updateIndex") ||
+				strings.HasPrefix(caller, "basestore.(*BaseStore).replicationLoadComplete"))
 	})
+	if merge > 0 {
+		w.n++ // the merging thread counts as a writer that must return
+		go func() {
+			sim.TagGoroutine("m0")
+			defer sim.UntagGoroutine()
+			err := w.store.Sync(bg, remoteHeads)
+			w.mu.Lock()
+			if err != nil {
+				w.errs["merge"] = err
+			}
+			w.done++
+			w.mu.Unlock()
+		}()
+		if err := sim.Quiesce(); err != nil {
+			return nil, err
+		}
+	}
 	for k := 0; k < n; k++ {
 		k := k
 		go func() {
+			sim.TagGoroutine(fmt.Sprintf("w%d", k))
+			defer sim.UntagGoroutine()
 			for j := 0; j < per; j++ {
 				payload := fmt.Sprintf("w%d.%d", k, j)
 				h, err := w.write(k, j, payload)
@@ -141,10 +219,29 @@ func (w *ConcWriters) Enabled() []string {
 	for _, l := range w.net.Gates.Parked() {
 		out = append(out, l)
 	}
+	if w.locks && w.last != "" {
+		// lock-granularity worlds count preemptions: the thread that made the last step comes first, so that
+		// taking any other enabled thread is the deviation
+		sort.SliceStable(out, func(i, j int) bool { return threadOf(out[i]) == w.last && threadOf(out[j]) != w.last })
+	}
 	return out
 }
 
+// threadOf extracts the writer name from a label (the detail field is "w<k>" or "w<k>.<j>").
+func threadOf(label string) string {
+	f := strings.Split(label, "|")
+	if len(f) < 3 {
+		return ""
+	}
+	t := f[2]
+	if i := strings.IndexByte(t, '.'); i >= 0 {
+		t = t[:i]
+	}
+	return t
+}
+
 func (w *ConcWriters) Do(a string) error {
+	w.last = threadOf(a)
 	if err := w.net.Gates.Release(a, sim.AnswerOK); err != nil {
 		return err
 	}
@@ -180,6 +277,14 @@ func (w *ConcWriters) Final() []explore.Violation {
 		return []explore.Violation{{Signature: "writer-never-returned", Detail: fmt.Sprintf("%d of %d writers returned although nothing is parked", done, w.n)}}
 	}
 	_ = nerr
+	w.mu.Lock()
+	merr := w.errs["merge"]
+	w.mu.Unlock()
+	if merr != nil {
+		out = append(out, explore.Violation{Signature: "merge-failed-during-concurrent-writes", Detail: merr.Error()})
+	}
+	// every writer has returned: the harness's own reads below must not park at schedule points
+	w.net.Gates.Enable(nil)
 	seen := map[string]string{}
 	for p, h := range acked {
 		if q, dup := seen[h]; dup {
@@ -289,10 +394,15 @@ func (w *ConcWriters) Close() {
 		_ = sim.Quiesce()
 	}
 	_ = w.inst.Close()
+	if w.remote != nil {
+		_ = w.remote.Close()
+	}
 	_ = sim.Quiesce()
 }
 
 type C17Arg struct {
+	Merge                        int
+	Locks                        bool
 	Kind                         string
 	N, Per, Bound, Shards, Shard int
 }
@@ -301,6 +411,12 @@ func (a C17Arg) Name() string {
 	k := a.Kind
 	if k == "" {
 		k = "eventlog"
+	}
+	if a.Locks {
+		k += "+lockpoints"
+	}
+	if a.Merge > 0 {
+		k += fmt.Sprintf("+merge%d", a.Merge)
 	}
 	return fmt.Sprintf("concwriters/%s/n%d/per%d/dev%d/shard%d.%d", k, a.N, a.Per, a.Bound, a.Shard, a.Shards)
 }
@@ -319,7 +435,7 @@ func c17Units(base C17Arg, shards int) []explore.Unit {
 func init() {
 	explore.Register(&explore.CheckDef{
 		ID: "C17", Level: "model_checking",
-		Rule: "N goroutines each issue one write on one store (event log; key-value and document store with the same or distinct keys); every writer is stepped by the explorer through the schedule points begin / after log append / after head persisted / between reading the log and locking the index / after view update (hooks H4, H5); all interleavings for N=2 and N=3 (N=3 bounded in quick), all schedules with <= 2 deviations for N=4..8; every execution runs to completion, then the instance is closed, reopened on the same cache and loaded. Oracle: acknowledged calls returned pairwise distinct entries, each recorded exactly once before restart and exactly once after reopen+Load(-1), and the key-value / document view equals the replay of the store's own log once all writers have returned. Non-trivial = executions with at least one deviation from the canonical (sequential) schedule.",
+		Rule: "N goroutines each issue one write on one store (event log; key-value and document store with the same or distinct keys); every writer is stepped by the explorer through the schedule points begin / after log append / after head persisted / between reading the log and locking the index / after view update (hooks H4, H5); all interleavings for N=2 and N=3 (N=3 bounded in quick), all schedules with <= 2 deviations for N=4..8; lock-granularity units: the store and index files are built with the vsync shim, every Lock/RLock of the write path, of replicationLoadComplete and of the index implementations is a schedule point too, and all schedules with <= 2 (thorough: 4) preemptions are run for two writers and for one writer against a thread that merges a remote writer's two entries (Sync); every execution runs to completion, then the instance is closed, reopened on the same cache and loaded. Oracle: acknowledged calls returned pairwise distinct entries, each recorded exactly once before restart and exactly once after reopen+Load(-1), and the key-value / document view equals the replay of the store's own log once all writers have returned. Non-trivial = executions with at least one deviation from the canonical (sequential) schedule.",
 		Units: func(tier string) []explore.Unit {
 			var u []explore.Unit
 			u = append(u, c17Units(C17Arg{N: 2, Per: 1, Bound: -1}, 8)...)
@@ -330,6 +446,16 @@ func init() {
 			}
 			for _, k := range []string{"keyvalue-same", "keyvalue-distinct", "docstore-same"} {
 				u = append(u, c17Units(C17Arg{Kind: k, N: 2, Per: 1, Bound: kb}, 8)...)
+			}
+			// lock granularity: every Lock/RLock of the write path and of the index implementations is a point
+			lb := 2
+			if tier == "thorough" {
+				lb = 4
+			}
+			for _, k := range []string{"eventlog", "keyvalue-same", "docstore-same"} {
+				u = append(u, c17Units(C17Arg{Kind: k, N: 2, Per: 1, Bound: lb, Locks: true}, 8)...)
+				// one writer against a replication merge of a remote writer's two entries
+				u = append(u, c17Units(C17Arg{Kind: k, N: 1, Per: 1, Bound: lb, Locks: true, Merge: 2}, 8)...)
 			}
 			if tier == "thorough" {
 				u = append(u, c17Units(C17Arg{N: 3, Per: 1, Bound: -1}, 48)...)
@@ -365,7 +491,7 @@ func init() {
 					if k == "" {
 						k = "eventlog"
 					}
-					return NewConcWritersKind(k, a.N, a.Per)
+					return NewConcWritersMerge(k, a.N, a.Per, a.Locks, a.Merge)
 				},
 				Bound:    a.Bound, Horizon: 400, Stats: c.Stats, Journal: c.JournalHist, Expired: c.Expired,
 				Shards: a.Shards, Shard: a.Shard,
@@ -378,7 +504,7 @@ func init() {
 		},
 		Assumptions: []string{
 			"environment is the deterministic simulation in /verif/mc/sim; cache puts are atomic and durable when they return",
-			"interleaving points are the H4 hooks; the stretches between them run freely (append itself is serialised by the log's lock)",
+			"interleaving points are the H4/H5 hooks and, in the lock-granularity units, every Lock/RLock in stores/basestore, stores/*/index.go (import of sync rewritten to the vsync shim at build time by tools/shim_overlay.py); the stretches between them run freely (append itself is serialised by the log's lock)",
 		},
 	})
 }
